@@ -265,10 +265,12 @@ def run_stream(spec, q_init, g, a, m, faulted):
     spec.live_instance = inst
     out = np.full((len(g), 4), np.nan)
     q = np.array(q_init, float)
+    q_feed = q.copy()           # what the user loop `q = f.update(q, ...)` hands back: the returned object AS IT IS
     refused = []
     for t in range(len(g)):
         try:
-            qn = step(q.copy(), g[t].copy(), a[t].copy(), m[t].copy())
+            qn = step(q_feed.copy() if type(q_feed) is np.ndarray else q_feed, g[t].copy(), a[t].copy(), m[t].copy())
+            q_ret = qn
         except np.linalg.LinAlgError as ex:     # a ValueError subclass, but a numerical crash, not a refusal
             return ('error', t, f'{type(ex).__name__}: {ex}'[:240])
         except ValueError as ex:
@@ -289,6 +291,7 @@ def run_stream(spec, q_init, g, a, m, faulted):
             break
         out[t] = qn
         q = qn
+        q_feed = q_ret if isinstance(q_ret, np.ndarray) else qn
     spec.params_after = _scalars(inst)
     return ('done', out, refused)
 
